@@ -15,7 +15,7 @@ EXTENDS NodeEnv, Json, IOUtils
 Traces == JsonDeserialize(IOEnv.TRACES)
 
 MsgEq(mm, jm) == /\ mm.cmd = jm.cmd /\ mm.req = jm.req /\ mm.hbh = jm.hbh /\ mm.e2e = jm.e2e
-                 /\ mm.app = jm.app /\ mm.rc = jm.rc /\ mm.oh = Canon(jm.oh)
+                 /\ mm.app = jm.app /\ mm.rc = jm.rc /\ mm.oh = jm.oh
 HdrEq(mm, jm) == mm.cmd = jm.cmd /\ mm.req = jm.req /\ mm.hbh = jm.hbh /\ mm.e2e = jm.e2e /\ mm.app = jm.app
 EvMatch(me, je) ==
   /\ me.ev = je.ev
